@@ -283,7 +283,9 @@ class _AuthMiddleware:
         exempt = (
             req.method == "OPTIONS"
             or req.path.startswith("/.well-known/")
-            or any(req.path.startswith(pfx) for pfx in self._exempt_prefixes)
+            # An entry ending in "/" exempts a subtree; any other entry (the
+            # health endpoint) exempts exactly that path, not its siblings.
+            or any(req.path == pfx or (pfx.endswith("/") and req.path.startswith(pfx)) for pfx in self._exempt_prefixes)
         )
         if self._authenticate is None or exempt:
             tc = _TransportContext(auth=_ANONYMOUS, transport_metadata=transport_metadata)
